@@ -258,6 +258,8 @@ def from_bytes(I, b):
         return Ok(b.payload)
     if isinstance(b, Bytes):
         return Ok(b)       # structured payloads stand for valid UTF-8 documents
+    if isinstance(b, (PyVec, PySlice)) and len(b.items) == 1 and isinstance(b.items[0], Bytes):
+        return from_bytes(I, b.items[0])
     if isinstance(b, (PyVec, PySlice)):
         if all(isinstance(x, int) for x in b.items):
             try:
